@@ -35,6 +35,15 @@ Monitors
   gridseq_total            : random sequences of set_active('all' | i), unparent_all_voxels(), parent_all_voxels(), parent
                              changes of the grid / of single voxels, construction with active = int | 'all' and a parent:
                              after every step total_volume == exact rational sum of the true voxel volumes.
+  emisorder_stat / _inside : any polygon (mostly concave) sampled through BOTH primitive types x both orientations x several
+                             starting vertices; each estimate against f(centroid), all sample points inside, estimates agree
+                             (emisorder_order);
+  scale_homog              : the cross-section (and a small grid) scaled about the origin by 2^k, k in -40..20 (nanometres to
+                             1000 km): area, centroid, volume, total_volume must scale by exactly 4^k, 2^k, 8^k (4 eps) and match
+                             the exact rational values; 'wide' polygons: half-extent 1e-8..1e3 m at R 1e-6..1e4 m, |z| up to
+                             1e3 m, judged with the same computed relative bounds; inputs whose bound exceeds 1e-3 are skipped
+                             and counted (never generated on purpose); ZeroDivisionError from the centroid of a non-degenerate
+                             polygon is a violation.
 Sampling runs in a forked child so that a crash of the unchecked triangle lookup becomes a violation, not a dead worker.
 """
 import json
@@ -62,7 +71,10 @@ RULE = ("random polygons whose coordinates are arbitrary doubles (exact dyadic r
         "rectangles rotated by 1e-9..0.1 rad or 45 deg, parallelograms, rectangles, all 8 orderings sampled; 'alias' cases: 12 "
         "vertex-container kinds x {scale, reverse, move-vertex, overwrite, re-used buffer} mutations by the caller, "
         "(N,M,2) arrays for grids; 'gridseq' cases: 2..10 scenegraph/activation operations on 1..24-voxel grids with a "
-        "total_volume read after each. A case is non-trivial when "
+        "total_volume read after each; 'emisorder' cases: concave-biased polygons x {csg, mesh} x both orientations x up to 3 "
+        "start vertices; 'scale' cases: 1..4 cells scaled by three powers of two 2^-40..2^20; 'wide' polygons: half-extent "
+        "1e-8..1e3 m, R 1e-6..1e4 m, conditioned so that the shoelace rounding bound stays <= 1e-4 relative. In the quick "
+        "tier 'poly' cases with more than 8 vertices use 16 evenly spaced orderings (thorough: all). A case is non-trivial when "
         "a deciding comparison ran on a certified polygon of non-zero area (for linear emissivity: non-zero variance); "
         "distinct = distinct polygon/grid/function descriptors")
 LEVEL_TEXT = ("Exploration by runtime reference-model monitoring: the real AxisymmetricVoxel / ToroidalVoxelGrid objects are "
@@ -80,13 +92,13 @@ ASSUMPTIONS = ["polygons are simple, non-degenerate (bounds in the rule) and lie
                "the ASan pass of DESIGN.md is not part of this module"]
 ASAN_MODULES = ['cherab.tools.inversions.voxels']
 ASAN = dict(cases=400, workers=8, timecap=240)
-QUICK = dict(cases=400, workers=2, timecap=45)      # ~12 s of worker time on an idle machine
+QUICK = dict(cases=340, workers=2, timecap=45)      # ~9 s of worker time per shard on an idle machine
 THOROUGH = dict(cases=60000, workers=16, timecap=600)
 # minima are reached by ~100 cases: a quick run cut short by the time cap on a loaded machine is still conclusive
 REQUIRED = {"area": 600, "centroid": 1200, "volume": 600, "volume_self": 600, "order": 150, "grid_total": 8,
             "grid_exact": 8, "emis_const": 15, "emis_stat": 15, "emis_range": 15, "emis_inside": 20000,
             "nearrect_stat": 100, "nearrect_inside": 20000, "nearrect_order": 8, "alias_caller": 40, "alias_unchanged": 40,
-            "gridseq_total": 60}
+            "gridseq_total": 60, "scale_homog": 60, "emisorder_stat": 100, "emisorder_inside": 5000, "emisorder_order": 8}
 
 EPS = 2.0 ** -52
 PI_CODE = 3.141592653589793
@@ -314,6 +326,8 @@ def gen_polygon(rng, cls=None, wide=False):
                 Zc = float(size * rng.uniform(-2, 2))
             else:
                 Zc = float(10 ** rng.uniform(0, 3) * (1 if rng.random() < 0.5 else -1))
+            if 40 * EPS * Rc * max(abs(Zc), size) > 1e-4 * size * size:
+                continue                                     # shoelace about the origin would be ill-conditioned: redraw
         else:
             Rc = float(10 ** rng.uniform(-1, 1))
             Zc = float(rng.uniform(-5, 5))
@@ -360,6 +374,9 @@ MAX_ORDERINGS_QUICK = 16
 
 def gen_case(rng, tier):
     u = rng.random()
+    if u < 0.04:
+        shape, P = gen_nearrect_polygon(rng)           # near-rectangle quadrilaterals also through the geometry monitors
+        return dict(kind="poly", cls="nearrect:" + shape, poly=P, prim="csg", max_orderings=0)
     if u < 0.34:
         cls, P = gen_polygon(rng)
         prim = "mesh" if (rng.random() < 0.12 and _mesh_ok(P)) else "csg"
@@ -398,12 +415,12 @@ def _gen_emisorder(rng, tier):
         int(rng.choice(7, p=[0.25, 0.25, 0.2, 0.1, 0.1, 0.05, 0.05]))]
     cls, P = gen_polygon(rng, cls)
     n = len(P)
-    starts = sorted(set([0] + [int(x) for x in rng.integers(0, n, size=2)]))
+    starts = sorted(set([0, int(rng.integers(0, n))]))
     prims = ["csg", "mesh"] if _mesh_ok(P) else ["csg"]
     return dict(kind="emisorder", cls=cls, poly=P, prims=prims, starts=starts,
                 fn=dict(a=float(rng.normal()), b=float(rng.normal()), c=float(rng.normal())) if rng.random() < 0.7
                 else dict(a=0.0, b=1.0, c=0.0),
-                N=int(rng.choice([20000, 50000])), Np=int(rng.choice([300, 1500])), rs_seed=int(rng.integers(1, 2 ** 61)))
+                N=int(rng.choice([10000, 30000])), Np=int(rng.choice([200, 800])), rs_seed=int(rng.integers(1, 2 ** 61)))
 
 
 # -- quadrilaterals that are near-misses of AxisymmetricVoxel._has_rectangular_cross_section ------------------------
@@ -745,6 +762,23 @@ def fixed_cases(tier):
     for ck, op in (("f64_c", "scale"), ("f64_c", "overwrite"), ("f64_rowview", "move-vertex"), ("f32", "reverse")):
         cc = cells[:12] if ck != "f32" else [[[float(np.float32(a)), float(np.float32(b))] for a, b in q] for q in cells[:12]]
         out.append(dict(kind="alias", mode="grid", cls="alias-grid:" + ck, ckind=ck, cells=cc, prim="csg", op=op))
+    # both primitive types x both orientations x several starting vertices of concave polygons; scale classes
+    lshape = [[2.0, 0.0], [2.0, 3.0], [3.0, 3.0], [3.0, 1.0], [5.0, 1.0], [5.0, 0.0]]
+    dart = [[1.0, 0.0], [3.0, 1.0], [1.0, 2.0], [1.5, 1.0]]
+    penta = [[2.0, -1.0], [2.0, 2.0], [3.0, 4.0], [4.0, 3.0], [4.0, -1.0]]
+    out += [
+        dict(kind="emisorder", cls="rectilinear", poly=lshape, prims=["csg", "mesh"], starts=[0, 2, 3],
+             fn=dict(a=0.2, b=1.0, c=-0.7), N=50000, Np=1500, rs_seed=21),
+        dict(kind="emisorder", cls="quad", poly=dart, prims=["csg", "mesh"], starts=[0, 1, 3],
+             fn=dict(a=0.0, b=1.0, c=1.0), N=50000, Np=1500, rs_seed=22),
+        dict(kind="scale", cls="scale", cells=[penta, lshape], exps=[-31, -21, -10, 17], prim="csg"),
+        dict(kind="scale", cls="scale", cells=[cells[0], cells[1], cells[21]], exps=[-40, -17, 20], prim="csg"),
+        dict(kind="poly", cls="wide:repo-tests", poly=[[x * 5e-7, y * 5e-7] for x, y in penta], prim="csg", max_orderings=0),
+        dict(kind="poly", cls="wide:repo-tests", poly=[[x * 3e2, y * 3e2] for x, y in penta], prim="csg", max_orderings=0),
+        dict(kind="grid", cls="grid:rect", prim="csg", const=1.0, nconst=3,
+             cells=[[[2.0 + 5e-7 * i, 5e-7 * j], [2.0 + 5e-7 * i, 5e-7 * (j + 1)], [2.0 + 5e-7 * (i + 1), 5e-7 * (j + 1)],
+                     [2.0 + 5e-7 * (i + 1), 5e-7 * j]] for i in range(3) for j in range(3)]),
+    ]
     out += [
         dict(kind="gridseq", cls="gridseq", cells=cells[:6], prim="csg", ctor_active="all", ctor_parent=None,
              ops=[["set_active", 2], ["read"], ["set_active", "all"], ["unparent_all_voxels"], ["parent_all_voxels"],
@@ -1194,10 +1228,13 @@ def _run_emis(case, ctx):
 # near-rectangle quadrilaterals: emissivity in every ordering of the vertex list
 # ------------------------------------------------------------------------------------------------
 
-def _run_nearrect(case, ctx):
+def _run_nearrect(case, ctx, general=False):
+    """general=False: 'nearrect' cases (one primitive type, all 8 orderings of a quadrilateral);
+    general=True: 'emisorder' cases (any polygon; primitive types x both orientations x selected starting vertices)"""
     P = [[float(a), float(b)] for a, b in case["poly"]]
     shape = case.get("cls", "?")
-    ctx.cls("nearrect:" + shape)
+    fam = "emisorder" if general else "nearrect"
+    ctx.cls("%s:%s" % (fam, shape))
     if not _certified(P, ctx):
         return
     ex = exact_moments(P)
@@ -1208,18 +1245,21 @@ def _run_nearrect(case, ctx):
     ext = float(max(np.ptp(V[:, 0]), np.ptp(V[:, 1])))
     n = len(P)
     orderings = []
-    for rev in (False, True):
-        base = P[::-1] if rev else P
-        for s0 in range(n):
-            orderings.append((s0, rev, base[s0:] + base[:s0]))
-    prim = case.get("prim", "csg")
+    prims = list(case["prims"]) if general else [case.get("prim", "csg")]
+    starts = [int(x) % n for x in case["starts"]] if general else list(range(n))
+    for prim in prims:
+        ctx.cls("%s-prim:%s" % (fam, prim))
+        for rev in (False, True):
+            base = P[::-1] if rev else P
+            for s0 in starts:
+                orderings.append((s0, rev, prim, base[s0:] + base[:s0]))
 
     def job():
         from raysect.core.math.random import seed
         from raysect.core.math.function.float import Arg3D
         fnat = a + b * Arg3D('x') + c * Arg3D('z')
         res = []
-        for k, (s0, rev, Q) in enumerate(orderings):
+        for k, (s0, rev, prim, Q) in enumerate(orderings):
             pts = []
 
             def fpy(x, y, z):
@@ -1240,10 +1280,11 @@ def _run_nearrect(case, ctx):
         return res
 
     out = _in_child(job)
-    det = dict(shape=shape, N=N)
+    det = dict(shape=shape, N=N, n_vertices=n)
+    kp = "emissivity:near-rectangle" if not general else "emissivity"
     if "signal" in out:
-        ctx.viol("emissivity:near-rectangle:sampler-crash", "child died with signal %d inside emissivity_from_function"
-                 % out["signal"], **det)
+        ctx.viol(kp + ":sampler-crash" + (":orderings" if general else ""),
+                 "child died with signal %d inside emissivity_from_function" % out["signal"], **det)
         return
     if "exc" in out:
         _report_child_exception(out, ctx, "emissivity_from_function")
@@ -1261,29 +1302,32 @@ def _run_nearrect(case, ctx):
     tol = _bernstein(sigma, hi - lo, N) + max(N, 64) * EPS * fmax
     tolp = _bernstein(sigma, hi - lo, Np) + max(Np, 64) * EPS * fmax
     means = []
-    for (s0, rev, _Q), r in zip(orderings, out["ok"]):
-        od = dict(start_vertex=s0, reversed=rev, **det)
+    for (s0, rev, prim, _Q), r in zip(orderings, out["ok"]):
+        orient = "ccw" if (ex["ccw"] != rev) else "cw"
+        od = dict(start_vertex=s0, orientation_given=orient, prim=prim, **det)
+        kq = kp if not general else "emissivity:%s:%s-input" % (prim, orient)
         means.append(r["mean"])
-        ctx.mon("nearrect_inside", r["npts"])
+        ctx.mon(fam + "_inside", r["npts"])
         if r["npts"] != Np:
-            ctx.viol("emissivity:near-rectangle:number-of-samples", "emission function was not called grid_samples times",
-                     got=r["npts"], **od)
+            ctx.viol(kq + ":number-of-samples", "emission function was not called grid_samples times", got=r["npts"], **od)
         if r["n_outside"]:
-            ctx.viol("emissivity:near-rectangle:sample-outside-cross-section",
-                     "emissivity_from_function evaluated the function at points outside a quadrilateral cross-section "
-                     "(4 vertices, not an axis-aligned rectangle)" if shape != "rectangle" else
-                     "emissivity_from_function evaluated the function at points outside a rectangular cross-section",
+            ctx.viol(kq + ":sample-outside-cross-section",
+                     "emissivity_from_function evaluated the function at points outside the cross-section (%s)" % (
+                         "%s voxel, %s vertex list" % (prim, orient) if general else
+                         "4 vertices, not an axis-aligned rectangle" if shape != "rectangle" else "axis-aligned rectangle"),
                      n_outside=r["n_outside"], of=r["npts"], first_outside=r["first_outside"], **od)
-        ctx.close(r["mean"], mu, "emissivity:near-rectangle:linear-mean-biased",
-                  "sampled mean of a linear emissivity over a quadrilateral deviates from the area mean f(centroid) beyond "
-                  "the p=2.6e-12 bound", atol=tol, monitor="nearrect_stat", sigma=sigma, **od)
-        ctx.close(r["mean_py"], mu, "emissivity:near-rectangle:linear-mean-biased",
-                  "sampled mean of a linear emissivity (Python callable) over a quadrilateral deviates from the area mean "
-                  "f(centroid) beyond the p=2.6e-12 bound", atol=tolp, monitor="nearrect_stat", sigma=sigma, **od)
-    ctx.close(max(means) - min(means), 0.0, "emissivity:near-rectangle:estimate-depends-on-vertex-order",
-              "the sampled mean emissivity of the same quadrilateral differs between orderings of its vertex list by more "
-              "than twice the statistical bound (its expectation f(centroid) does not depend on the ordering)",
-              atol=2 * tol, monitor="nearrect_order", **det)
+        ctx.close(r["mean"], mu, kq + ":linear-mean-biased",
+                  "sampled mean of a linear emissivity deviates from the area mean f(centroid) beyond the p=2.6e-12 bound",
+                  atol=tol, monitor=fam + "_stat", sigma=sigma, **od)
+        ctx.close(r["mean_py"], mu, kq + ":linear-mean-biased",
+                  "sampled mean of a linear emissivity (Python callable) deviates from the area mean f(centroid) beyond the "
+                  "p=2.6e-12 bound", atol=tolp, monitor=fam + "_stat", sigma=sigma, **od)
+    ctx.close(max(means) - min(means), 0.0,
+              kp + (":estimate-depends-on-vertex-order" if not general else ":estimate-depends-on-vertex-order-or-primitive"),
+              "the sampled mean emissivity of the same polygon differs between orderings of its vertex list%s by more than "
+              "twice the statistical bound (its expectation f(centroid) does not depend on them)" % (
+                  " / primitive types" if general else ""),
+              atol=2 * tol, monitor=fam + "_order", **det)
 
 
 # ------------------------------------------------------------------------------------------------
@@ -1568,3 +1612,68 @@ def _run_gridseq(case, ctx):
         elif name != "read":
             raise ValueError("unknown grid op %r" % (op,))
         observe(name, step=step)
+
+
+# ------------------------------------------------------------------------------------------------
+# scale: power-of-two similarity about the origin (nanometre .. 1000 km cross-sections, any radius)
+# ------------------------------------------------------------------------------------------------
+
+def _run_scale(case, ctx):
+    from cherab.tools.inversions import ToroidalVoxelGrid
+    cells = [[[float(a), float(b)] for a, b in cell] for cell in case["cells"]]
+    prim = case.get("prim", "csg")
+    ctx.cls("scale")
+    for cell in cells:
+        if not _certified(cell, ctx):
+            return
+    exs = [exact_moments(cell) for cell in cells]
+    tbs = [rounding_bounds(cell, ex) for cell, ex in zip(cells, exs)]
+    for tb, ex in zip(tbs, exs):
+        if not _well_conditioned(tb, ex, ctx):
+            return
+    P = cells[0]
+    n = len(P)
+    base = _observe(_mk_voxel(P, prim), ctx, n_vertices=n, scale_exponent=0)
+    if base is None:
+        return
+    gbase = float(ToroidalVoxelGrid(cells, primitive_type=prim).total_volume)
+    want_tot = math.fsum(tb["volume"] for tb in tbs)
+    tol_tot = float(sum(tb["vol"] for tb in tbs)) + len(cells) * EPS * want_tot
+    ctx.nontrivial()
+    for k in case["exps"]:
+        k = int(k)
+        f = 2.0 ** k
+        ctx.cls("scale-decade:%+03d" % int(round(k * math.log10(2.0) / 3.0) * 3))
+        Q = [[x * f, y * f] for x, y in P]                     # exact: power of two, no under/overflow in this range
+        det = dict(scale_exponent=k, n_vertices=n, extent=float(np.ptp(np.array(Q)[:, 0])))
+        ob = _observe(_mk_voxel(Q, prim), ctx, **det)
+        if ob is None:
+            continue
+        # every operation of the documented formulae is homogeneous => results scale exactly in binary floating point
+        ctx.close(ob[0], base[0] * f * f, "scale:area-not-homogeneous",
+                  "area of the cross-section scaled by 2^k about the origin is not 4^k x the area", rtol=4 * EPS,
+                  monitor="scale_homog", **det)
+        ctx.close([ob[1], ob[2]], [base[1] * f, base[2] * f], "scale:centroid-not-homogeneous",
+                  "centroid of the cross-section scaled by 2^k about the origin is not 2^k x the centroid", rtol=4 * EPS,
+                  monitor="scale_homog", **det)
+        ctx.close(ob[3], base[3] * f * f * f, "scale:volume-not-homogeneous",
+                  "volume of the cross-section scaled by 2^k about the origin is not 8^k x the volume", rtol=4 * EPS,
+                  monitor="scale_homog", **det)
+        # and against the exact rational values of the scaled polygon (relative bounds are scale invariant)
+        ex, tb = exs[0], tbs[0]
+        ctx.close(ob[0], float(ex["A"]) * f * f, "area:scaled-input", "cross_sectional_area differs from the true area "
+                  "(cross-section scaled by 2^k)", atol=tb["A"] * f * f, monitor="area", **det)
+        ctx.close(ob[1], float(ex["cx"]) * f, "centroid-r:scaled-input", "cross_section_centroid.x differs from the true "
+                  "centroid radius (cross-section scaled by 2^k)", atol=tb["cx"] * f, monitor="centroid", **det)
+        ctx.close(ob[2], float(ex["cy"]) * f, "centroid-z:scaled-input", "cross_section_centroid.y differs from the true "
+                  "centroid height (cross-section scaled by 2^k)", atol=tb["cy"] * f, monitor="centroid", **det)
+        ctx.close(ob[3], tb["volume"] * f ** 3, "volume:scaled-input", "volume differs from 2 pi x true centroid radius x "
+                  "true area (cross-section scaled by 2^k)", atol=tb["vol"] * f ** 3, monitor="volume", **det)
+        g = ToroidalVoxelGrid([[[x * f, y * f] for x, y in cell] for cell in cells], primitive_type=prim)
+        tv = float(g.total_volume)
+        ctx.close(tv, gbase * f ** 3, "scale:grid-total-volume-not-homogeneous",
+                  "total_volume of a grid scaled by 2^k about the origin is not 8^k x the total volume", rtol=4 * EPS,
+                  monitor="scale_homog", n_voxels=len(cells), **det)
+        ctx.close(tv, want_tot * f ** 3, "grid:total-volume-not-sum-of-true-volumes:scaled-input",
+                  "ToroidalVoxelGrid.total_volume differs from the sum of the true voxel volumes (grid scaled by 2^k)",
+                  atol=tol_tot * f ** 3, monitor="grid_exact", n_voxels=len(cells), **det)
